@@ -33,6 +33,11 @@ type cfg struct {
 	via string
 	// partialWrites: a write cut by a deadline has transferred half of its bytes
 	partialWrites bool
+	// builtinTLS: wss through the library's own TLS client (crypto/tls over the gate conn; the
+	// peer never answers the ClientHello) instead of a pass-through TLSClient hook
+	builtinTLS bool
+	// wrapConn: Dialer.WrapConn set to a wrapper that hands the conn back unchanged
+	wrapConn bool
 }
 
 func (c cfg) String() string {
@@ -42,6 +47,12 @@ func (c cfg) String() string {
 	}
 	if c.partialWrites {
 		s += " partial-writes"
+	}
+	if c.builtinTLS {
+		s += " builtin-tls"
+	}
+	if c.wrapConn {
+		s += " wrapconn"
 	}
 	return s
 }
@@ -115,7 +126,12 @@ func execute(c *explore.Chooser, cf cfg, t *explore.T) *explore.Fail {
 		}
 		return a.conn, nil
 	}
-	d.TLSClient = func(conn net.Conn, hostname string) net.Conn { return conn }
+	if !cf.builtinTLS {
+		d.TLSClient = func(conn net.Conn, hostname string) net.Conn { return conn }
+	}
+	if cf.wrapConn {
+		d.WrapConn = func(c net.Conn) net.Conn { return c }
+	}
 	var out dialOutcome
 	done := make(chan struct{})
 	w.partialWrites = cf.partialWrites
@@ -394,6 +410,12 @@ func main() {
 							continue
 						}
 						cfgs = append(cfgs, cfg{ctxKind: ck, timeout: to, peer: p, scheme: sch})
+						if sch == "wss" && p == "silent0" && to != "long" {
+							// the TLS phase itself, against a peer that never answers
+							cfgs = append(cfgs, cfg{ctxKind: ck, timeout: to, peer: p, scheme: sch, builtinTLS: true},
+								cfg{ctxKind: ck, timeout: to, peer: p, scheme: sch, builtinTLS: true, wrapConn: true},
+								cfg{ctxKind: ck, timeout: to, peer: p, scheme: sch, builtinTLS: true, via: "debug"})
+						}
 						if sch == "ws" && (p == "responsive1" || p == "silent0" || p == "silent1") && to != "long" {
 							cfgs = append(cfgs, cfg{ctxKind: ck, timeout: to, peer: p, scheme: sch, via: "debug"},
 								cfg{ctxKind: ck, timeout: to, peer: p, scheme: sch, partialWrites: true},
